@@ -20,6 +20,8 @@ QUICK = [
                "MaxN": "5", "MaxD": "3", "MaxStmts": "1", "Ill0": "1"}, None),
     ("data", {"Fam": "<- FamData", "LitPool": "<- Lits2", "Names": "<- Names1", "BinOps": "<- Ops2",
               "TyNames": "<- TySome", "Prelude": "<- PreData", "MaxN": "3", "MaxStmts": "1"}, None),
+    ("strs", {"Fam": "<- FamOps", "LitPool": "<- LitsStr2", "Names": "<- Names1", "BinOps": "<- OpsStr", "MaxN": "5",
+              "MaxD": "3", "MaxStmts": "1"}, None),
     ("select", {"Fam": "<- FamSelect", "LitPool": "<- LitsSel", "Names": "<- Names1", "BinOps": "<- Ops2",
                 "MaxN": "4", "MaxStk": "4", "MaxStmts": "1"}, None),
     ("call", {"Fam": "<- FamCallPre", "LitPool": "<- Lits3", "Names": "<- Names1", "BinOps": "<- OpsFew",
